@@ -294,6 +294,41 @@ func streamEq(o *Out, r *rand.Rand, n int, thorough bool) {
 			}
 		}
 	}
+	// pointer operands: one relation whatever side the pointer stands on, whatever form is used and wherever the operand came
+	// from (a variable, a list element, a map entry)
+	ptrOps := []string{"pi", "ps", "pl", "pn", "qi", "5", "\"s\"", "[1, 2]", "nil", "6", "[pi][0]", "{\"k\": pi}.k", "[ps][0]", "[pn][0]", "&five", "[&five][0]"}
+	for _, l := range ptrOps {
+		for _, rr := range ptrOps {
+			vars := func() map[string]interface{} {
+				i5, i5b, s := int64(5), int64(5), "s"
+				var l interface{} = []interface{}{int64(1), int64(2)}
+				return map[string]interface{}{"pi": &i5, "qi": &i5b, "ps": &s, "pl": &l, "pn": (*int64)(nil), "five": int64(5)}
+			}
+			var answers []string
+			bad := false
+			for _, form := range []string{l + " == " + rr, rr + " == " + l, "!(" + l + " != " + rr + ")", "!(" + rr + " != " + l + ")", l + " in [" + rr + "]", rr + " in [" + l + "]",
+				"[" + l + "][0] == " + rr, l + " == [" + rr + "][0]", "switch " + l + " {\ncase " + rr + ":\ntrue\ndefault:\nfalse\n}", "switch [" + l + "][0] {\ncase " + rr + ":\ntrue\ndefault:\nfalse\n}"} {
+				out := runScript(form, vars(), nil)
+				o.Sum.Evaluations++
+				o.Sum.Hist["pointer-forms"]++
+				b, ok := asBool(out)
+				if !ok {
+					bad = true
+				}
+				answers = append(answers, fmt.Sprint(b))
+			}
+			same := true
+			for _, a := range answers {
+				if a != answers[0] {
+					same = false
+				}
+			}
+			if bad || !same {
+				o.Fail(Failure{Oracle: "eq-coherent", Key: "eq-pointer-forms", Input: l + " == " + rr + "  (pi, qi -> int64 5, ps -> \"s\", pl -> [1, 2], pn = nil *int64, five = 5)",
+					Detail: fmt.Sprintf("a==b, b==a, !(a!=b), !(b!=a), a in [b], b in [a], [a][0]==b, a==[b][0], switch a {case b}, switch [a][0] {case b} give %v", answers)})
+			}
+		}
+	}
 	// membership in TYPED lists (host-supplied or made by the script) is the same relation: item in T  <=>  some T[i] == item
 	typedLists := map[string]interface{}{
 		"ti": []int64{0, 1, 2, 10, 65}, "ts": []string{"A", "1", "10", "", "true", "010"}, "tf": []float64{0, 1.5, 3, 10}, "tb": []bool{true}, "tb0": []bool{false},
